@@ -80,7 +80,7 @@ ValidUtf8(s) == Utf8From(s, 1)
 \*   len: its byte extent;  zone: TRUE where the property text leaves the outcome open.
 NoRec == [head |-> <<>>, lines |-> <<>>, qual |-> <<>>]
 EndElem(line, byte) == [rec |-> NoRec, okRec |-> FALSE, errs |-> {}, okEnd |-> TRUE,
-                        line |-> line, byte |-> byte, len |-> 0, zone |-> FALSE, coords |-> FALSE]
+                        line |-> line, byte |-> byte, len |-> 0, zone |-> FALSE, coords |-> FALSE, raw |-> <<>>]
 \* error descriptor; `lines`: acceptable line numbers, `ids`: acceptable ids (<<>> none, <<id>>)
 ErrD(k, lines, found, sl, ql, ids) == [k |-> k, lines |-> lines, found |-> found, seq |-> sl, qual |-> ql, ids |-> ids]
 =============================================================================
